@@ -497,7 +497,6 @@ type c14World struct {
 }
 
 var (
-	errC14Stopped = errors.New("verif: node stopped")
 	errC14Fail    = errors.New("verif: receiver failed")
 	errC14Fatal   = errors.New("verif: receiver failed for good")
 )
@@ -535,7 +534,9 @@ func (w *c14World) receiver(inc *c14Inc, si int) ReceiverFn {
 		if inc.stopped {
 			w.mu.Unlock()
 			<-inc.snapDone
-			return false, errC14Stopped
+			// the database copy is complete: whatever this abandoned incarnation records now is never seen again.
+			// "done" ends its retry loops at once (an error would let each spend its budget, seconds for slow ones).
+			return true, nil
 		}
 		ti, known := w.byRef[ev.Hash]
 		if !known {
